@@ -65,10 +65,11 @@ INT_ALPHABET = list("0123456789") + ["_", "+", "-", " ", "\t", "\n", "a", ".", "
 def run(out: common.Outcome):
     rnd = random.Random(out.seed)
     n_opts = 350 if out.tier == "quick" else 6000
+    n_opts = int(n_opts * out.boost)
     n_small = 400 if out.tier == "quick" else 6000
     model = Model()
     corr = Corr(out, model, rnd)
-    out.coverage["source_pin"] = common.source_hash(PINS)
+    common.pins_changed(out, PINS)
 
     # ---- option handling through the real _prepareconfig + hook implementations
     cases = [{"args": a, "env": None, "worker": False, "addopts": None} for a in CORE]
